@@ -102,3 +102,8 @@ Definition ex4_body := ex4_phdrs ++ encode_dyns true true ex4_dyn ++ ex_strtab +
                        encode_dyns true true ex4_dyn2 ++ ex4_shdrs.
 Definition ex4_img := ex4_ehdr 340 3 ++ ex4_body.
 Definition ex4_img' := ex4_ehdr 0 0 ++ ex4_body.
+
+(* SysV hash with 64-bit entries (s390x / alpha ELF64): 2 buckets, 5 chain entries *)
+Definition ex_sysv64 : list Z :=
+  encode_layout (spec_Elf_Hash_w true true) [VZ 2; VZ 5; VL [1; 3]; VL [0; 2; 0; 4; 0]] ++ [7; 7].
+Definition ex_hash_f_s390x (img : list Z) : elf := mkElf img true true (mkEhdr 0 22 0 0 0 0 0 0 0) [] [] [].
